@@ -20,6 +20,10 @@
 //!   {"part":"cache","comp":"cac_mem"|"cac_disk"|"ml","kinds":["mem","disk"],"hooks":"md5"|"ngdp"|"none",
 //!    "keys":["a"],"ops":[...]}           operations: see exec_cache
 //!   {"part":"cache","big":true,...}      one value above the 100 MiB validation threshold
+//!   {"part":"conc",comp:"ml",kinds,hooks,keys,"init":[ops],"reader":{"k","ck"},"writer":op,"at":n,"after":bool}
+//!       a validating read with one operation of another user (put | put_raw | remove) after its first n looks
+//!       (the reader is parked at the scheduling point of the disk layer's lookup), before it (at 0) or after it;
+//!       event {"op":"race",...,"occ":occurrence of the site,"parked":bool,"writer":op+res,"res":read result,"obs"}
 //!
 //! Events
 //!   {"op":"new","part":"art",kind,variant,loader,fault,"len":n,"bytes":[..],"x":extra,"base":code,"md5":hex}
@@ -804,6 +808,13 @@ fn exec_cache(run: &Run, op: &Value) -> Value {
             };
             if r { json!({"ok": 1}) } else { json!({"err": 1}) }
         }
+        "put" | "remove" => match &run.comp {
+            Comp::Ml(c) => {
+                let ok = if name == "put" { rt.block_on(c.put(rkey(s(op, "k")), val("v"))).is_ok() } else { rt.block_on(c.remove(&rkey(s(op, "k")))).is_ok() };
+                if ok { json!({"ok": 1}) } else { json!({"err": 1}) }
+            }
+            _ => json!({"err": 1}),
+        },
         "get" => match &run.comp {
             Comp::Ml(c) => match rt.block_on(c.get(&rkey(s(op, "k")))) {
                 Ok(Some(b)) => json!({"some": content(&b)}),
@@ -943,18 +954,153 @@ fn run_cache(prog: &Value, out: &Emit) {
     }
 }
 
+// =========================================================================== part C: a validating read with a writer in between
+// The validating read asks the layers one after the other.  With the crate's `verif-hooks` scheduling points the
+// reader thread is parked inside the disk layer's lookup (site `disk.get.looked_up`, i.e. after the faster layers
+// have answered) while another user of the cache runs one operation; then it is released.  Which occurrence of the
+// site to park at comes from the program (TLC: after how many looks the writer runs).
+struct Gate {
+    armed: bool,
+    target: u64,
+    hits: u64,
+    parked: bool,
+    release: bool,
+}
+static GATE: std::sync::Mutex<Gate> = std::sync::Mutex::new(Gate { armed: false, target: 0, hits: 0, parked: false, release: false });
+static GATE_CV: std::sync::Condvar = std::sync::Condvar::new();
+thread_local! { static IS_READER: std::cell::Cell<bool> = const { std::cell::Cell::new(false) }; }
+
+fn sched_handler(site: &'static str) {
+    if site != "disk.get.looked_up" || !IS_READER.with(std::cell::Cell::get) {
+        return;
+    }
+    let mut g = GATE.lock().unwrap_or_else(std::sync::PoisonError::into_inner);
+    if !g.armed {
+        return;
+    }
+    g.hits += 1;
+    if g.hits != g.target {
+        return;
+    }
+    g.parked = true;
+    GATE_CV.notify_all();
+    let deadline = std::time::Instant::now() + Duration::from_secs(60);
+    while !g.release && std::time::Instant::now() < deadline {
+        g = GATE_CV.wait_timeout(g, Duration::from_millis(100)).unwrap_or_else(std::sync::PoisonError::into_inner).0;
+    }
+    g.armed = false;
+}
+
+fn read_validated(run: &Run, rt: &tokio::runtime::Runtime, k: &str, ckn: &str) -> Value {
+    let Comp::Ml(c) = &run.comp else { panic!("driver: conc needs the multi-layer cache") };
+    match rt.block_on(c.get_with_validation(&rkey(k), Some(ckey(ckn)))) {
+        Ok(Some(nb)) => json!({"some": content(nb.as_bytes()), "validated": nb.is_validated()}),
+        Ok(None) => json!({"none": 1}),
+        Err(_) => json!({"err": 1}),
+    }
+}
+
+fn run_conc(prog: &Value, out: &Emit) {
+    let run = Arc::new(new_run(prog));
+    let mut h = cache_header(prog);
+    h["part"] = json!("conc");
+    h["prog"] = prog.clone();
+    out.ev(h);
+    let mut seq = 0u64;
+    for op in prog["init"].as_array().expect("init") {
+        seq += 1;
+        if !step(&run, op, seq, out) {
+            return;
+        }
+    }
+    let (k, ckn) = (s(&prog["reader"], "k").to_string(), s(&prog["reader"], "ck").to_string());
+    let wop = prog["writer"].clone();
+    let at = n(prog, "at");
+    let after = prog["after"].as_bool().unwrap_or(false);
+    // the occurrence of the site to park at: the disk layers among the first at + 1 layers
+    let kinds: Vec<&str> = prog["kinds"].as_array().expect("kinds").iter().map(|x| x.as_str().unwrap()).collect();
+    let occ = if after || at == 0 || at >= kinds.len() || kinds[at] != "disk" { 0 } else { kinds[..=at].iter().filter(|x| **x == "disk").count() as u64 };
+    let race = json!({"op": "race", "k": k, "ck": ckn, "at": at, "after": after, "occ": occ});
+    out.begin(&race);
+    let mut ev = race.clone();
+    seq += 1;
+    ev["seq"] = json!(seq);
+    let writer = |run: &Run| -> Value {
+        let mut w = wop.clone();
+        w["res"] = guarded(|| exec_cache(run, &wop)).unwrap_or_else(|_| json!({"panic": 1}));
+        w
+    };
+    let mut parked = false;
+    if !after && at == 0 {
+        ev["writer"] = writer(&run);
+    }
+    {
+        let mut g = GATE.lock().unwrap_or_else(std::sync::PoisonError::into_inner);
+        *g = Gate { armed: occ > 0, target: occ, hits: 0, parked: false, release: false };
+    }
+    let (tx, rx) = std::sync::mpsc::channel::<Result<Value, String>>();
+    let (r2, k2, c2) = (run.clone(), k.clone(), ckn.clone());
+    std::thread::spawn(move || {
+        IS_READER.with(|r| r.set(true));
+        let rt2 = rt();
+        let _ = tx.send(guarded(|| read_validated(&r2, &rt2, &k2, &c2)));
+    });
+    let mut res: Option<Result<Value, String>> = None;
+    if occ > 0 {
+        // wait until the reader is parked - or has returned without reaching the site
+        let deadline = std::time::Instant::now() + Duration::from_secs(40);
+        loop {
+            if let Ok(r) = rx.try_recv() {
+                res = Some(r);
+                break;
+            }
+            let g = GATE.lock().unwrap_or_else(std::sync::PoisonError::into_inner);
+            if g.parked || std::time::Instant::now() > deadline {
+                parked = g.parked;
+                break;
+            }
+            drop(GATE_CV.wait_timeout(g, Duration::from_millis(20)));
+        }
+        if parked {
+            ev["writer"] = writer(&run);
+        }
+        let mut g = GATE.lock().unwrap_or_else(std::sync::PoisonError::into_inner);
+        g.release = true;
+        g.armed = false;
+        GATE_CV.notify_all();
+    }
+    let res = match res {
+        Some(r) => Some(r),
+        None => rx.recv_timeout(Duration::from_secs(50)).ok(),
+    };
+    if ev.get("writer").is_none() {
+        // the writer did not get its turn in between: it runs after the read
+        ev["writer"] = writer(&run);
+    }
+    ev["parked"] = json!(parked);
+    ev["res"] = match res {
+        Some(Ok(v)) => v,
+        Some(Err(m)) => json!({"panic": 1, "msg": m.chars().take(120).collect::<String>()}),
+        None => json!({"panic": 1, "msg": "the validating read did not return"}),
+    };
+    ev["obs"] = guarded(|| observe(&run)).unwrap_or_else(|_| json!([]));
+    out.ev(ev);
+}
+
 fn run_program(prog: &Value, out: &Emit) {
     out.begin(&json!({"op": "new"}));
     match s(prog, "part") {
         "art" => run_art(prog, out),
         "val" => run_val(prog, out),
         "cache" => run_cache(prog, out),
+        "conc" => run_conc(prog, out),
         p => panic!("driver: unknown part {p}"),
     }
 }
 
 fn main() {
     quiet_panics();
+    cascette_cache::verif_hooks::install_sched(Some(Arc::new(sched_handler)));
     assert_ne!(value_bytes("v1"), value_bytes("v2"));
     let args: Vec<String> = std::env::args().collect();
     let mut out = Out::from_arg(arg(&args, "--out").as_ref());
